@@ -147,6 +147,8 @@ Section Ser.
         (* the implicit binding of the xml prefix is not written; a declaration of it on the element itself is *)
         if N.eqb p (n_xml_prefix nm) && N.eqb ns (n_xml_ns nm) && negb (existsb (fun d => N.eqb (fst d) p) (declarations z))
         then inr (st, tok false [])
+        (* a prefix bound to "no namespace" has no spelling in XML and is left out *)
+        else if negb (N.eqb p ep) && N.eqb ns nn then inr (st, tok false [])
         else
           let uri := serialize_attribute (n_ns_str nm ns) in
           if N.eqb p ep then inr (st, tok true (s_xmlns ++ [61; 34] ++ uri ++ [34]))
